@@ -864,7 +864,9 @@ func gateLike(ifi *ssa.If) (bool, int) {
 
 // checkWrapperAgreement finds the error wrapper (repo function error→error used by the attempt functions on the
 // RoundTrip failure path) and evaluates its connection-failure branches against the gate.
-func checkWrapperAgreement(c *Ctx, r *Report, gate *connGate) {
+// errorWrapperOf finds the error wrapper: the repo function error→error the per-attempt functions (or their helpers) apply
+// to the error of RoundTrip. scope: the attempt functions with the helpers of their package they call.
+func errorWrapperOf(c *Ctx) (*ssa.Function, []*ssa.Function) {
 	// wrapper: static callee in attempt functions whose first param and single result are `error`
 	var wrapper *ssa.Function
 	onRT := false
@@ -921,6 +923,11 @@ func checkWrapperAgreement(c *Ctx, r *Report, gate *connGate) {
 			}
 		})
 	}
+	return wrapper, scope
+}
+
+func checkWrapperAgreement(c *Ctx, r *Report, gate *connGate) {
+	wrapper, _ := errorWrapperOf(c)
 	if wrapper == nil {
 		r.Unresolved("C04-R3", "error wrapper used by the per-attempt functions (func(error, ...) error)")
 		return
